@@ -30,7 +30,7 @@ STUBS = LOOP_STUBS + [
 ASSUMPTIONS = ["peer byte stream = 0,1,2,... so that order / loss / duplication are visible; chunk lengths 1..3, max_bytes in [1,3] symbolic"]
 OUTSIDE = ["real kernel buffer behaviour, TCP loopback, 'several socket buffers' worth of data", "uvloop transports", "receive_fds/send_fds, datagram sockets", "trio"]
 MUST_REACH = ["tcp:chunk-split-on-max_bytes", "tcp:eof-after-data", "tcp:data-arrived-before-first-receive", "tcp:send-waited-for-write-gate", "tcp:closed-while-receiving", "tcp:busy-rejected",
-              "unix:partial-recv", "unix:partial-send", "unix:eof", "unix:closed-while-receiving", "unix:busy-rejected", "tcp:closed-with-unread-inbound-data", "tcp:aclose-interrupted-by-cancellation", "unix:receive-cancelled"]
+              "unix:partial-recv", "unix:partial-send", "unix:eof", "unix:closed-while-receiving", "unix:busy-rejected", "tcp:closed-with-unread-inbound-data", "tcp:aclose-interrupted-by-cancellation", "unix:receive-cancelled", "tcp:closed-with-received-data-still-queued"]
 
 
 class FakeTransport(asyncio.Transport):
@@ -215,6 +215,11 @@ def tcp(sym, cov, mode, eager=False, T=1, N=4, busy=False, close_cancelled=False
                     except BrokenResourceError:
                         out["end"] = "broken"
                         return
+                    except BusyResourceError:
+                        # this reader is the legitimate user (it started first): nobody else is inside receive() now
+                        bad("busy-error-although-no-other-task-is-receiving", {"second_reader": out.get("second")})
+                        out["end"] = "busy"
+                        return
                     out["chunks"].append(c)
                     if len(c) < 1 or len(c) > mb:
                         bad("chunk-size", {"len": len(c), "max_bytes": mb})
@@ -241,6 +246,8 @@ def tcp(sym, cov, mode, eager=False, T=1, N=4, busy=False, close_cancelled=False
                         await anyio.sleep(0)
                 out["closed_at"] = loop.cycles
                 out["chunks_before_close"] = len(out["chunks"])
+                out["bytes_before_close"] = sum(len(c_) for c_ in out["chunks"])
+                out["queued_at_close"] = sum(len(c_) for c_ in proto.read_queue)
                 if xc:
                     with anyio.CancelScope() as sc_:
                         sc_.cancel()
@@ -321,6 +328,11 @@ def tcp(sym, cov, mode, eager=False, T=1, N=4, busy=False, close_cancelled=False
             chk(out.get("end") in ("closed", "eof"), "receive-after-close-wrong-ending", out.get("end"))
             if out.get("end") == "eof":
                 chk(out.get("peer_eof_delivered"), "end-of-stream-on-locally-closed-stream-without-peer-eof")
+            if out.get("end") == "closed" and "queued_at_close" in out:
+                # ClosedResourceError only once no already-received data is left
+                chk(len(got) >= out["bytes_before_close"] + out["queued_at_close"], "already-received-data-discarded-by-local-close",
+                    {"received": len(got), "before_close": out["bytes_before_close"], "queued_at_close": out["queued_at_close"]})
+                cov.hit("tcp:closed-with-received-data-still-queued", out["queued_at_close"] > 0)
             cov.hit("tcp:closed-while-receiving", out.get("end") == "closed")
             tr_ = out["tr"]
             if getattr(tr_, "peer_sees", None) is not None:
